@@ -977,7 +977,12 @@ class Interp:
             elif o[0] == "fnitem":
                 fb = self.F.get(o[1])
                 any_called = True
-                if fb is not None and fb.id not in self.policy.opaque:
+                if o[2].rsplit("::", 1)[-1] in ("Ok", "Some") and args:
+                    # enum constructor used as a function value
+                    last = o[2].rsplit("::", 1)[-1]
+                    tagn = "#v:std::result::Result" if last == "Ok" else "#v:std::option::Option"
+                    r = with_tag(args[0], tagn, V("Const(%s)" % last))
+                elif fb is not None and fb.id not in self.policy.opaque:
                     r, st2 = self.call_body(fb, frame.ctx, list(args), st, site)
                     st.clear()
                     st.update(st2)
